@@ -344,7 +344,7 @@ def run_inplace(W, cfg):
 
 # ------------------------------------------------------------------ histories
 def cfg_hist(tier, seed):
-    out = [{'case': c} for c in ('plane-reuse', 'interleaved-dft2', 'fit-tilt-twice', 'fit-tilt-twice-segmented', 'spectrum-reuse', 'spectrum-edit-sample', 'wavefront-fanout', 'offset-dft2-twice', 'scratch-reuse')]
+    out = [{'case': c} for c in ('plane-reuse', 'interleaved-dft2', 'fit-tilt-twice', 'fit-tilt-twice-segmented', 'spectrum-reuse', 'spectrum-edit-sample', 'operand-attributes', 'wavefront-fanout', 'offset-dft2-twice', 'scratch-reuse')]
     return out, len(out), True
 
 
@@ -438,6 +438,41 @@ def run_hist(W, cfg):
             # shift = z * angle / du with concrete angles: compare the angle factors with a tolerance for the float least squares
             W.ob_close(f'segment {k}: same total tilt by either route (rows)', sa[0] * du / z * 1e6, sb[0] * du / z * 1e6, 1e-6)
             W.ob_close(f'segment {k}: same total tilt by either route (cols)', sa[1] * du / z * 1e6, sb[1] * du / z * 1e6, 1e-6)
+    elif case == 'operand-attributes':
+        # the scalar attributes of both operands survive a product and a propagation, and a shared wavefront multiplies the
+        # next plane as it would have before
+        a = W.reals('a', (2, 2), nz=True)
+        lam, f0, f1, dx, du = W.real('lam', pos=True), W.real('f0', pos=True), W.real('f1', pos=True), W.real('dx', pos=True), W.real('du', pos=True)
+        w0 = lt.Wavefront(lam, pixelscale=dx, focal_length=f0)
+        attrs = ('wavelength', 'focal_length', 'pixelscale', 'ptype', 'shape')
+
+        def snap(o, names):
+            return {k: getattr(o, k) for k in names if hasattr(o, k)}
+
+        def unchanged(tag, o, before):
+            for k, v in before.items():
+                now = getattr(o, k)
+                same = now is v or (isinstance(v, (tuple, list)) and isinstance(now, (tuple, list)) and len(v) == len(now) and all(x is y or ((not W.sym) and x == y) for x, y in zip(now, v))) \
+                    or ((not W.sym) and type(now) is type(v) and now == v)
+                W.ob_true(f'{tag}: {k} unchanged', bool(same))
+        plain = lt.Plane(amplitude=W.reals('b', (2, 2), nz=True), pixelscale=dx)
+        before_field = (w0 * plain).field
+        b0 = snap(w0, attrs)
+        pup = lt.Pupil(amplitude=a, focal_length=f1, pixelscale=dx)
+        pb = snap(pup, ('focal_length', 'pixelscale', 'ptype', 'shape'))
+        w1 = w0 * pup
+        unchanged('wavefront after w * Pupil', w0, b0)
+        unchanged('Pupil after w * Pupil', pup, pb)
+        W.ob_true('Pupil tilt list untouched', len(pup.tilt) == 0)
+        b1 = snap(w1, attrs)
+        img = lt.propagate_dft(w1, pixelscale=du, shape=(2, 2), oversample=1)
+        unchanged('wavefront after propagate_dft', w1, b1)
+        im = lt.Image(amplitude=W.reals('c', (2, 2), nz=True), pixelscale=du)
+        bi = snap(img, attrs)
+        img * im
+        unchanged('image wavefront after w * Image', img, bi)
+        W.ob('the shared wavefront multiplies the next plane as before', (w0 * plain).field, before_field)
+        W.ob('focal length of the product with the plain plane is the wavefront\'s own', (w0 * plain).focal_length, f0)
     elif case == 'spectrum-edit-sample':
         # sample in another wavelength unit, edit the values (setter, flux-unit conversion, in-place arithmetic), sample again:
         # the answer is that of a fresh Spectrum in the same state
